@@ -193,10 +193,12 @@ pub static mut EXEC_ARGV: *const *const libc::c_char = core::ptr::null();
 pub static mut EXEC_ENVP: *const *const libc::c_char = core::ptr::null();
 pub unsafe fn execv(path: *const libc::c_char, argv: *const *const libc::c_char) -> libc::c_int {
     EXEC_CALLS += 1; EXEC_KIND = 1; EXEC_PATH = path; EXEC_ARGV = argv; EXEC_ENVP = core::ptr::null();
+    log_attempt(path);
     fail() // returning at all means failure
 }
 pub unsafe fn execve(path: *const libc::c_char, argv: *const *const libc::c_char, envp: *const *const libc::c_char) -> libc::c_int {
     EXEC_CALLS += 1; EXEC_KIND = 2; EXEC_PATH = path; EXEC_ARGV = argv; EXEC_ENVP = envp;
+    log_attempt(path);
     fail()
 }
 pub static mut EXIT_STATUS: i32 = -1;
@@ -204,4 +206,24 @@ pub unsafe fn _exit(status: libc::c_int) -> ! {
     EXIT_STATUS = status;
     kani::assume(false); // the process ends here
     loop {}
+}
+
+// ------------------------------------------------------------------ exec attempts log (bounded harnesses)
+pub const MAX_ATTEMPTS: usize = 4;
+pub const MAX_EXE: usize = 8;
+pub static mut ATTEMPTS: usize = 0;
+pub static mut ATTEMPT_BYTES: [[u8; MAX_EXE]; MAX_ATTEMPTS] = [[0xff; MAX_EXE]; MAX_ATTEMPTS];
+pub static mut ATTEMPT_PTR: [usize; MAX_ATTEMPTS] = [0; MAX_ATTEMPTS];
+pub unsafe fn log_attempt(path: *const libc::c_char) {
+    if ATTEMPTS < MAX_ATTEMPTS {
+        ATTEMPT_PTR[ATTEMPTS] = path as usize;
+        let mut i = 0;
+        while i < MAX_EXE {
+            let b = *path.add(i) as u8;
+            ATTEMPT_BYTES[ATTEMPTS][i] = b;
+            if b == 0 { break; }
+            i += 1;
+        }
+    }
+    ATTEMPTS += 1;
 }
